@@ -86,29 +86,34 @@ class ExecuteCommand(SubCommand):
         nr_wait_cycles = int(options.execute_nr_wait_cycles)
         noprogress = 0
         failures = False
-        while noprogress < nr_wait_cycles:
-            del tasks[:]
-            on_error = ('propagate' if options.pdb else 'exit')
-            store, jugspace = init(options.jugfile, options.jugdir, on_error=on_error, store=store)
-            if options.debug:
-                for t in tasks:
-                    # Trigger hash computation:
-                    t.hash()
+        try:
+            while noprogress < nr_wait_cycles:
+                del tasks[:]
+                on_error = ('propagate' if options.pdb else 'exit')
+                store, jugspace = init(options.jugfile, options.jugdir, on_error=on_error, store=store)
+                if options.debug:
+                    for t in tasks:
+                        # Trigger hash computation:
+                        t.hash()
 
-            previous = sum(tstats.executed.values())
-            failures = execution_loop(tasks, options) or failures
-            after = sum(tstats.executed.values())
-            done = not jugspace.get('__jug__hasbarrier__', False)
-            if done:
-                break
-            if after == previous:
-                from time import sleep
-                noprogress += 1
-                sleep(int(options.execute_wait_cycle_time))
+                previous = sum(tstats.executed.values())
+                failures = execution_loop(tasks, options) or failures
+                after = sum(tstats.executed.values())
+                done = not jugspace.get('__jug__hasbarrier__', False)
+                if done:
+                    break
+                if after == previous:
+                    from time import sleep
+                    noprogress += 1
+                    sleep(int(options.execute_wait_cycle_time))
+                else:
+                    noprogress = 0
             else:
-                noprogress = 0
-        else:
-            logging.info('No tasks can be run!')
+                logging.info('No tasks can be run!')
+        finally:
+            # main() only closes the stores it opened itself
+            if store is not None:
+                store.close()
 
         jug_hook('execute.finished_pre_status')
         maybe_print_citation_info(options)
